@@ -100,9 +100,15 @@ def deque_extend(ex, path, q, ca, node):
         old = path.sel("deque.arr", q.e)
         new = fresh("dq_arr", old.sort())
         path.assume(n >= 0)
-        path.assume(z3.ForAll([k], z3.Implies(z3.And(k >= 0, k < n), z3.Select(new, t + k) == mapped)))
-        j = fresh("j", Int)
-        path.assume(z3.ForAll([j], z3.Implies(j < t, z3.Select(new, j) == z3.Select(old, j))))
+        pp = fresh("p", Int)
+        # one pointwise definition, triggered by Select(new, p)
+        path.assume(z3.ForAll([pp], z3.Implies(
+            pp < t + n,
+            z3.Select(new, pp) == z3.If(pp < t, z3.Select(old, pp), z3.substitute(mapped, (k, pp - t)))),
+            patterns=[z3.Select(new, pp)]))
+        # the same fact indexed from the source side, triggered by the source element
+        path.assume(z3.ForAll([k], z3.Implies(z3.And(k >= 0, k < n), z3.Select(new, t + k) == mapped),
+                              patterns=[elem(k)]))
         path.store("deque.arr", q.e, new)
         path.store("deque.tail", q.e, t + n)
         return [(path, NoneV())]
@@ -732,3 +738,69 @@ def _str_join(ex, path, recv, ca, node):
 
 STR_METHODS["format"] = _str_format
 STR_METHODS["join"] = _str_join
+
+
+# --------------------------------------------------------------------------- sets from iterables, set difference
+def set_from_seq(ex, path, v, node=None):
+    """set(iterable): membership = occurrence in the sequence."""
+    sv = ex.seq_view(path, v, node)
+    st = path.alloc("set[Val]", "set")
+    if sv[0] == "unroll":
+        has = z3.K(Int, False)
+        for it in sv[1]:
+            has = z3.Store(has, ref_of(it), True)
+        path.store("set.has", st.e, has)
+        return st
+    elem, n, et = sv
+    has = fresh("set_has", z3.ArraySort(Int, Bool))
+    x, k = fresh("x", Int), fresh("k", Int)
+    path.assume(n >= 0)
+    path.assume(z3.ForAll([k], z3.Implies(z3.And(k >= 0, k < n), z3.Select(has, elem(k))), patterns=[elem(k)]))
+    path.assume(z3.ForAll([x], z3.Implies(z3.Select(has, x), z3.Exists([k], z3.And(k >= 0, k < n, elem(k) == x))),
+                          patterns=[z3.Select(has, x)]))
+    path.store("set.has", st.e, has)
+    return O(st.e, f"set[{et}]")
+
+
+def _set_ctor2(ex, path, ca, node):
+    if not ca.pos:
+        return set_ctor(ex, path, ca, node)
+    return [(path, set_from_seq(ex, path, ca.pos[0], node))]
+
+
+CLASSES["set"].ctor = _set_ctor2
+
+
+def set_sub(ex, path, a, b):
+    r = path.alloc(a.cls, "setdiff")
+    ha, hb = path.sel("set.has", a.e), path.sel("set.has", b.e)
+    has = fresh("diff_has", ha.sort())
+    x = fresh("x", Int)
+    path.assume(z3.ForAll([x], z3.Select(has, x) == z3.And(z3.Select(ha, x), z3.Not(z3.Select(hb, x))),
+                          patterns=[z3.Select(has, x)]))
+    path.store("set.has", r.e, has)
+    return [(path, r)]
+
+
+BINOPS[("Sub", "set")] = set_sub
+
+
+def set_truthy(path, v):
+    x = z3.Const("x!st", Int)
+    return z3.Exists([x], z3.Select(path.sel("set.has", v.e), x))
+
+
+CLASSES["set"].truthy_fn = set_truthy
+
+GLOBAL_NAMES["warnings"] = Py(("module", "warnings"))
+
+
+def _warn(ex, path, ca, node):
+    path.hset("ghost.nwarn", path.hget("ghost.nwarn") + 1)
+    return [(path, NoneV())]
+
+
+BUILTINS["warnings.warn"] = _warn
+GLOBAL_NAMES["warnings.warn"] = Py(("builtin", "warnings.warn"))
+GLOBAL_NAMES["UserWarning"] = Py(("const", "UserWarning"))
+GLOBAL_NAMES["DeprecationWarning"] = Py(("const", "DeprecationWarning"))
